@@ -23,6 +23,11 @@ STRENGTHENED = {
  'C15_3': 'missed at first (dimensions 1..3) -> optimum clause and concrete samples for every dimension 1..12,16,20,24,30 (thorough 1..30)',
  'C17_3': 'missed at first (only tag 1 passed explicitly) -> every listing with explicit tags 0, 1, 2',
  'C18_3': 'missed at first (distinct position vectors) -> leaders and particles sharing one position vector',
+ 'C05_4': 'missed at first (every design kept the default stored precision 7) -> stored precision 0 and 2 (thorough 0,1,2,3,12)',
+ 'C12_4': 'missed at first (Halton with 1, 3 and 4 parameters only) -> prime-base table for every dimension 1..40 (thorough 1..200), generator with 5..8 parameters',
+ 'C14_4': 'missed at first (tolerances assumed strictly positive) -> tolerance 0 included',
+ 'C16_4': 'inconclusive at first (`np.asarray(.., dtype=float)` of proxies unsupported; list vectors only) -> numpy shim keeps proxies and the aliasing of `asarray`; ndarray design vectors, vector-not-modified and same-design-same-objectives checks',
+ 'C20_4': 'inconclusive at first (`hash(point)` inside the library hit the int-only builtin) -> shim calls the real `__hash__`; the real CPython collision hash(-1.0) == hash(-2.0) as model-selection hint so that the counterexample replays',
 }
 print('| seed | change (abridged) | needs | verdict of the check(s) on the patched tree | note |')
 print('|---|---|---|---|---|')
